@@ -1,20 +1,9 @@
-#![allow(dead_code)]
 //! scverif — property-based verification harness for string_calculator.
 //!   scverif worker <ID> --tier quick|thorough --seed N [--sub NAME]   (prints RESULT/FAILURE lines)
 //!   scverif replay <file.json>                                        (re-checks one stored case)
 //!   scverif eval <evaluator> <placeholder-enc> <input>               (one raw call; used for crash triage)
 
-mod api;
-mod big;
-mod choice;
-mod gen;
-mod grammar;
-mod lex;
-mod props;
-mod refeval;
-mod run;
-mod util;
-mod vocab;
+use scverif::{api, choice, props, run, util};
 
 use run::{Case, Tier};
 use serde_json::Value;
@@ -171,6 +160,36 @@ fn main() {
             }
             for l in lines {
                 println!("{}", l);
+            }
+        }
+        "fuzzseeds" => {
+            // encode a list of expressions into t_strings seed files (reverse mapping through the byte alphabet)
+            let dir = args.get(2).cloned().unwrap_or_else(|| ".".into());
+            let base = scverif::gen::raw_alphabet();
+            let alpha: Vec<String> = (0..256).map(|i| base[i % base.len()].clone()).collect();
+            let exprs = ["1+2*3", "(2+3)/2", "2^3!", "-2^2", "6/2(3)", "2(3)^2(4)", "min(1,2,3)", "avg()", "5!", "sqrt(16)", "abs(-3)+pow(2,10)", "1<<2+1", "6&3|1", "2²+3³", "⌊2.5⌋+⌈2.5⌉", "pi*e", "90°", "1rad", "(1+2i)*(3-i)", "w(1)", "ilog(100,10)", "@+1", "1)", "2pi", "med(1,2,3,4)", "gcd(12,18)", "lambert_w(0.5)", "atan2(1,2)", "root(2,9)", "log(8,2)", "1.5e", "0.1+0.2", "9223372036854775807+1", "1/0", "0/0", "artanh(0.5)", "signum(-2)", "truncate(2.5)", "3!(2)^2!", "max(@,@)-@"];
+            for (n, e) in exprs.iter().enumerate() {
+                let cs: Vec<char> = e.chars().collect();
+                let mut bytes: Vec<u8> = vec![(n * 7) as u8];
+                let mut i = 0;
+                while i < cs.len() {
+                    // longest alphabet entry matching at i
+                    let mut best: Option<(usize, usize)> = None;
+                    for (bi, a) in alpha.iter().enumerate() {
+                        let ac: Vec<char> = a.chars().collect();
+                        if !ac.is_empty() && i + ac.len() <= cs.len() && cs[i..i + ac.len()] == ac[..] && best.map(|b| ac.len() > b.1).unwrap_or(true) {
+                            best = Some((bi, ac.len()));
+                        }
+                    }
+                    match best {
+                        Some((bi, l)) => {
+                            bytes.push(bi as u8);
+                            i += l;
+                        }
+                        None => i += 1,
+                    }
+                }
+                std::fs::write(format!("{}/seed{:02}", dir, n), &bytes).unwrap();
             }
         }
         "selftest" => {
